@@ -54,6 +54,42 @@ def convert(r, data_lf, how):
     return out + parts[-1]
 
 
+LEADS = ["**", " *", "*", "*|", "##", "++", "\\\\", "|", "", "   ", "\t", "#", "+", " **", "* *"]
+
+
+def comment_styles(r):
+    """a translation unit whose block comments use every style of continuation lead"""
+    out = []
+    for k in range(r.randint(6, 12)):
+        lead = r.choice(LEADS)
+        first = r.choice(["", " banner", "* doc", "  text  ", "!"])
+        body = [lead + r.choice([" line", "line", "", "  indented", " x  "]) for _ in range(r.randint(1, 4))]
+        if r.random() < 0.2:
+            body[0] = ""
+        end = r.choice([" */", "*/", lead + "*/", "**/"])
+        ind = r.choice(["", "", "    ", "\t"])
+        cm = ind + "/*" + first + "\n" + "\n".join(ind + b for b in body) + "\n" + ind + end
+        kind = r.random()
+        if kind < 0.5:
+            out.append(cm + "\nint v%d = %d;" % (k, k))
+        elif kind < 0.8:
+            out.append("void f%d(void)\n{\n%s\n\tint a = %d; %s\n}" % (k, cm, k, "/* t1\n" + lead + " t2 */" if r.random() < 0.5 else "// c"))
+        else:
+            out.append("#define M%d(a) \\\n  do { a; } \\\n  while (0)\n%s" % (k, cm))
+    return ("\n".join(out) + "\n").encode()
+
+
+def comment_cfg(r):
+    opts = ["indent_columns=4"]
+    for name, vals in [("cmt_indent_multi", ["true", "false"]), ("cmt_star_cont", ["true", "false"]), ("cmt_sp_before_star_cont", ["0", "1", "2"]),
+                       ("cmt_sp_after_star_cont", ["0", "1"]), ("cmt_multi_check_last", ["true", "false"]), ("cmt_multi_first_len_minimum", ["1", "4"]),
+                       ("cmt_reflow_mode", ["0", "1", "2"]), ("cmt_c_nl_start", ["true", "false"]), ("cmt_c_nl_end", ["true", "false"]),
+                       ("cmt_convert_tab_to_spaces", ["true", "false"]), ("indent_with_tabs", ["0", "1", "2"])]:
+        if r.random() < 0.3:
+            opts.append("%s=%s" % (name, r.choice(vals)))
+    return "\n".join(opts) + "\n"
+
+
 def stray_oracle(R, findings):
     att = rc.attributed(R)
     nl = [int(x, 16) for x in R.hdr.get("nl", "a").split(",")]
@@ -81,6 +117,10 @@ def run(rep, build, tier, seed):
                                                                 dict(indent="random", blank_max=2, comments=True))
     special = b"/* multi\n   line\n comment */\n#define M(a) \\\n  do { a; } \\\n  while (0)\nint f(void)\n{\n\tchar *s = \"x\"; // c1 \\\n continued\n\treturn 0;\n}\n/* *INDENT-OFF* */\n  int   keep ;\n/* *INDENT-ON* */\nint y;\n"
     base_cases.append(rc.Case("special", "C", "indent_columns=4\n", special))
+    # block comments in every lead-character style: the comment writers look at the characters behind the first line break
+    # (two lead characters, one, none, an empty second line), which is where a terminator can be taken for text
+    for i in range(4 if tier == "quick" else 80):
+        base_cases.insert(i, rc.Case("cmtstyle:%d" % i, r.choice(["C", "CPP"]), comment_cfg(r), comment_styles(r)))
     cases, groups = [], []
     for bc in base_cases:
         try:
